@@ -213,7 +213,7 @@ def pseudo_item(rnd, name=None):
     if name == "PUSH data":
         return (name, "%064X" % rnd.choice([rnd.getrandbits(256), rnd.getrandbits(250) | (1 << 255)]))
     if name in ("PUSH [$]", "PUSH #[$]"):
-        return (name, "%064x" % rnd.randrange(0, 3))
+        return (name, "%064x" % rnd.choice([0, 1, 2, 9, 10, 11, 17, 255]))
     if name == "PUSHLIB":
         return (name, rnd.choice(["lib/A.sol:A", "lib/B.sol:B", "C"]))
     if name == "PUSHIMMUTABLE":
@@ -427,6 +427,26 @@ def gen_block(rnd, kind=None):
         if rnd.random() < 0.4:
             code.append((rnd.choice(["DUP1", "SWAP1", "POP", "DUP2"]), None))
         return code[:10] or [("PUSH", "1")], kind
+    if kind == "zero":
+        # zero pushes: literal, folded (X-X, AND(X,0), XOR(X,X)) and as rule results
+        nin = rnd.choice([1, 2, 3])
+        out = []
+        extra = 0
+        for _ in range(rnd.randrange(1, 4)):
+            X = ("in", rnd.randrange(nin))
+            t = rnd.choice([("c", 0), ("op", "SUB", [X, X]), ("op", "AND", [X, ("c", 0)]), ("op", "XOR", [X, X]),
+                            ("op", "MUL", [("c", 0), X]), ("op", "ISZERO", [("c", 1)]), ("op", "ADD", [X, ("c", 0)]),
+                            ("op", "GT", [("c", 0), X]), ("op", "SUB", [("c", 5), ("c", 5)]), ("c", rnd.randrange(0, 3))])
+            t = _wrap(rnd, t, nin)
+            code = []
+            if compile_tree(t, extra, code, nin):
+                out.extend(code)
+                extra += 1
+                if rnd.random() < 0.4:
+                    out.append(("PUSH", hexv(rnd.choice(SMALL_ADDRS))))
+                    out.append((rnd.choice(["MSTORE", "SSTORE"]), None))
+                    extra -= 1
+        return out or [("PUSH", "0")], kind
     if kind == "long":
         return gen_grammar_block(rnd, Profile(minlen=15, maxlen=60, w_mem=3.0, w_sto=2.0, max_need=8)), kind
     if kind == "splitlong":
